@@ -7,7 +7,8 @@ PROP_V = ["Props/Properties_C10.v"]
 GEN_MODULES = ["Consts", "Sites"]
 FLOW_FILES = ['counter.c', 'wait.c']
 REPLAY_HINT = "VRT_SEED=<seed> _work/h/counter_mix"
-PARTIAL = ["'through nsync_wait_n': CounterModel inlines the waitable path for count = 1, mu = NULL; the composition of the real counter steps with wait.c's loop is covered by WaitNModel (abstract counter) + waitn_mix, not by one composed model",
+PARTIAL = ["nsync_counter_free is exercised sequentially only (alloc_fail); a review tried waits followed at once by nsync_counter_free while the last nsync_counter_add may still be inside (8000 schedules under the runtime): clean, not a registered scenario",
+           "'through nsync_wait_n': CounterModel inlines the waitable path for count = 1, mu = NULL; the composition of the real counter steps with wait.c's loop is covered by WaitNModel (abstract counter) + waitn_mix, not by one composed model",
            'runs that race the `waited` ASSERT (an increment from zero concurrent with the first wait: C10_assert_race) are excluded by `broken w = false` -- a client-contract hypothesis (all increments precede all waits), recorded in DESIGN 9.2',
            "C10_no_stuck is proved in the form C10_no_stuck_partial (an unfinished thread can run, or waits for a lock whose holder can run, or "
            "sleeps with its record queued while the value is non-zero); the unconditional statement is refuted by a client-side deadlock "
